@@ -293,8 +293,10 @@ cmp_loom_rank(struct loom *a, struct loom *b)
 		return -1;
 	if (id1 > id2)
 		return +1;
-	else
-		return 0;
+
+	/* Same minimum rank in two looms: fall back to the name rather than
+	 * to the order in which the streams were found */
+	return cmp_loom_id(a, b);
 }
 
 static void
